@@ -104,40 +104,14 @@ func validatedAt(v ssa.Value, pt point, seen map[ssa.Value]bool) (bool, string) 
 			return false, "the result of imports.Process is used on a path where its error was not checked to be nil"
 		}
 	}
-	// result of a module helper that itself only returns validated bytes (e.g. an extracted "render" step)
-	if ex, ok := v.(*ssa.Extract); ok && ex.Index == 0 {
-		if call, ok := ex.Tuple.(*ssa.Call); ok {
-			if g := an.StaticCallee(call); g != nil && an.InModule(g) && g.Blocks != nil && !seen[call] {
-				seen[call] = true
-				res := g.Signature.Results()
-				if res.Len() == 2 && an.ShortType(res.At(0).Type()) == "[]byte" && an.IsErrorType(res.At(1).Type()) {
-					edges := errNilEdges(call)
-					if len(edges) == 0 || reachedWithout(call, pt, edges) {
-						return false, "the bytes returned by " + short(g) + " are used on a path where its error was not checked to be nil"
-					}
-					for _, ret := range an.Returns(g) {
-						if an.IsNilConst(ret.Results[0]) {
-							continue // failure return
-						}
-						// `return imports.Process(...)`: bytes and error of the same validating call
-						if e0, ok := ret.Results[0].(*ssa.Extract); ok {
-							if e1, ok := ret.Results[1].(*ssa.Extract); ok && e0.Tuple == e1.Tuple {
-								if c, ok := e0.Tuple.(*ssa.Call); ok && an.IsCallTo(c, importsProcess) {
-									continue
-								}
-							}
-						}
-						if !an.IsNilConst(ret.Results[1]) {
-							return false, short(g) + " returns bytes together with a possibly non-nil error"
-						}
-						if ok, why := validatedAt(ret.Results[0], point{nil, ret.Block()}, seen); !ok {
-							return false, "inside " + short(g) + ": " + why
-						}
-					}
-					return true, ""
-				}
-			}
+	// result of a module helper that itself only returns validated bytes (e.g. an extracted "render" step);
+	// when the helper does not validate, the bytes may still be re-parsed by the caller (below)
+	helperWhy := ""
+	if ok, why, applies := validatedByHelper(v, pt, seen); applies {
+		if ok {
+			return true, ""
 		}
+		helperWhy = why
 	}
 	// src of a parser.ParseFile
 	for _, c := range an.CallsTo(f, parserParse) {
@@ -157,7 +131,51 @@ func validatedAt(v ssa.Value, pt point, seen map[ssa.Value]bool) (bool, string) 
 			return true, ""
 		}
 	}
+	if helperWhy != "" {
+		return false, helperWhy
+	}
 	return false, "value " + v.Name() + " (" + an.Describe(v) + ") reaches the sink without having been parsed: neither an imports.Process result nor the src of a checked parser.ParseFile"
+}
+
+// validatedByHelper: v is the bytes result of a module function returning
+// ([]byte, error); ok when that function only ever returns validated bytes and
+// its error was checked on the way to the point.
+func validatedByHelper(v ssa.Value, pt point, seen map[ssa.Value]bool) (ok bool, why string, applies bool) {
+	if ex, ok := v.(*ssa.Extract); ok && ex.Index == 0 {
+		if call, ok := ex.Tuple.(*ssa.Call); ok {
+			if g := an.StaticCallee(call); g != nil && an.InModule(g) && g.Blocks != nil && !seen[call] {
+				seen[call] = true
+				res := g.Signature.Results()
+				if res.Len() == 2 && an.ShortType(res.At(0).Type()) == "[]byte" && an.IsErrorType(res.At(1).Type()) {
+					edges := errNilEdges(call)
+					if len(edges) == 0 || reachedWithout(call, pt, edges) {
+						return false, "the bytes returned by " + short(g) + " are used on a path where its error was not checked to be nil", true
+					}
+					for _, ret := range an.Returns(g) {
+						if an.IsNilConst(ret.Results[0]) {
+							continue // failure return
+						}
+						// `return imports.Process(...)`: bytes and error of the same validating call
+						if e0, ok := ret.Results[0].(*ssa.Extract); ok {
+							if e1, ok := ret.Results[1].(*ssa.Extract); ok && e0.Tuple == e1.Tuple {
+								if c, ok := e0.Tuple.(*ssa.Call); ok && an.IsCallTo(c, importsProcess) {
+									continue
+								}
+							}
+						}
+						if !an.IsNilConst(ret.Results[1]) {
+							return false, short(g) + " returns bytes together with a possibly non-nil error", true
+						}
+						if ok, why := validatedAt(ret.Results[0], point{nil, ret.Block()}, seen); !ok {
+							return false, "inside " + short(g) + ": " + why, true
+						}
+					}
+					return true, "", true
+				}
+			}
+		}
+	}
+	return false, "", false
 }
 
 // sinksOfRun lists (call, bytes argument, description) of the emission sinks in
@@ -240,7 +258,7 @@ func c07ErrorEdgesSkipSinks(r *an.Run, m *runModel) {
 		if !an.IsCallTo(c, formatNode, importsProcess, parserParse) {
 			// a private helper that runs validation steps and reports their failure as its own error
 			h := an.StaticCallee(c)
-			if h == nil || !an.InModule(h) || h.Blocks == nil || an.FuncPkgPath(h) != an.FuncPkgPath(m.run) || errValue(call) == nil {
+			if h == nil || !an.InModule(h) || h.Blocks == nil || (an.FuncPkgPath(h) != an.FuncPkgPath(m.run) && !inSharedHelperPackage(h)) || errValue(call) == nil {
 				continue
 			}
 			inner := 0
@@ -390,15 +408,29 @@ func c07API(r *an.Run) {
 	}
 	for _, c := range apiCalls {
 		call := c.(*ssa.Call)
-		ev := errValue(call)
-		good := returnsTupleOf(call)
-		for _, cse := range an.EqCases(call.Parent(), func(v ssa.Value) bool { return v == ev }) {
-			if !an.IsNilConst(cse.Key) {
-				continue
+		// at every level between the call and Apply a failure returns no bytes and the error
+		good := true
+		cur := call
+		for steps := 0; steps < 4; steps++ {
+			if !failureReturnsNoBytes(cur) {
+				good = false
 			}
-			if ret := an.ReturnOf(cse.Else); ret != nil && an.IsNilConst(ret.Results[0]) && !an.IsNilConst(ret.Results[1]) {
-				good = true
+			if cur.Parent() == f {
+				break
 			}
+			var next *ssa.Call
+			for _, g := range helperGroup(f, 3) {
+				for _, cc := range an.Calls(g) {
+					if x, ok := cc.(*ssa.Call); ok && an.StaticCallee(cc) == cur.Parent() {
+						next = x
+					}
+				}
+			}
+			if next == nil {
+				good = false
+				break
+			}
+			cur = next
 		}
 		r.Check(good, short(f)+"|on-error|"+an.CalleeName(c), c.Pos(), "when %s fails File.Apply returns no bytes and the error", an.CalleeName(c))
 	}
@@ -471,4 +503,26 @@ func tupleReturnedWhole(c *ssa.Call) bool {
 		}
 	}
 	return found == n
+}
+
+// failureReturnsNoBytes: in the function that makes the call, a non-nil error
+// of the call leads to `return nil, err`, or the call's results are returned as
+// they are.
+func failureReturnsNoBytes(call *ssa.Call) bool {
+	if returnsTupleOf(call) || tupleReturnedWhole(call) {
+		return true
+	}
+	ev := errValue(call)
+	if ev == nil {
+		return false
+	}
+	for _, cse := range an.EqCases(call.Parent(), func(v ssa.Value) bool { return v == ev }) {
+		if !an.IsNilConst(cse.Key) {
+			continue
+		}
+		if ret := an.ReturnOf(cse.Else); ret != nil && len(ret.Results) == 2 && an.IsNilConst(ret.Results[0]) && !an.IsNilConst(ret.Results[1]) {
+			return true
+		}
+	}
+	return false
 }
